@@ -11,6 +11,7 @@ import (
 	"encoding/binary"
 	"errors"
 	"fmt"
+	"os"
 	"runtime"
 	"sort"
 	"strconv"
@@ -305,9 +306,16 @@ func c01RunSched(capQ, maxB int, blocking bool, ops []string, win time.Duration)
 	r := &c01Run{bsp: bsp, exp: exp, ended: map[int]bool{}, ffRes: map[int]string{},
 		pkSpan: map[int]*c01ParkReq{}, pkFF: map[int]*c01ParkReq{}}
 	// a Shutdown call (any number of them, each in its own goroutine): records its result under its call index
-	shutdownCall := func(idx int) func() {
+	// expired: the call is made with a context that has already ended (op `st`)
+	shutdownCallCtx := func(idx int, expired bool) func() {
 		return func() {
-			err := bsp.Shutdown(context.Background())
+			ctx := context.Background()
+			if expired {
+				c, cancel := context.WithCancel(ctx)
+				cancel()
+				ctx = c
+			}
+			err := bsp.Shutdown(ctx)
 			r.mu.Lock()
 			if err == nil {
 				r.sdRes[idx] = "o"
@@ -317,6 +325,7 @@ func c01RunSched(capQ, maxB int, blocking bool, ops []string, win time.Duration)
 			r.mu.Unlock()
 		}
 	}
+	shutdownCall := func(idx int) func() { return shutdownCallCtx(idx, false) }
 	out := []string{}
 	for _, op := range ops {
 		switch {
@@ -408,15 +417,18 @@ func c01RunSched(capQ, maxB int, blocking bool, ops []string, win time.Duration)
 				close(req.release)
 				delete(r.pkSpan, id)
 			}
-		case op == "s": // every `s` is a Shutdown call of its own goroutine: the first wins stopOnce, the others wait in Once.Do
+		case op == "s" || op == "st": // every `s` is a Shutdown call of its own goroutine: the first wins stopOnce, the others wait in Once.Do
+			// `st`: the same with a context that has already ended — the winner returns ctx.Err() from its select while the
+			// goroutine it started goes on; a call that does not win waits in Once.Do regardless of its context
 			r.mu.Lock()
 			idx := len(r.sdRes)
 			r.sdRes = append(r.sdRes, "p")
 			r.mu.Unlock()
 			r.pending.Add(1)
+			expired := op == "st"
 			go func() {
 				defer r.pending.Done()
-				shutdownCall(idx)()
+				shutdownCallCtx(idx, expired)()
 			}()
 		case op[0] == 'u': // OnEnd of an unsampled span: must return at once, nothing queued, nothing counted
 			id, _ := strconv.Atoi(op[1:])
@@ -501,6 +513,27 @@ func c01RunSched(capQ, maxB int, blocking bool, ops []string, win time.Duration)
 func c01GenOps(r *vRand, n int) []string {
 	ops := []string{}
 	nextID, nextF := 1, 1
+	// `st` = Shutdown with a context that has already ended. When it is the call that wins stopOnce it returns ctx.Err()
+	// at once while its goroutine goes on draining; any Shutdown call made after that returns nil immediately, before the
+	// drain is over (known finding F44). Scripts that contain such a later call are generated only when the leg sets
+	// VERIF_C01_F44=1 (checks/C01.json), i.e. once F44 is listed in known-findings.json; without it a script makes no
+	// Shutdown call after a winning `st` (the drain after the error return is exercised all the same).
+	f44 := os.Getenv("VERIF_C01_F44") == "1"
+	sdCalled, noMoreSd := false, false
+	shutdownOp := func() (string, bool) {
+		if noMoreSd {
+			return "", false
+		}
+		op := "s"
+		if r.Intn(4) == 0 {
+			op = "st"
+			if !sdCalled && !f44 {
+				noMoreSd = true
+			}
+		}
+		sdCalled = true
+		return op, true
+	}
 	for i := 0; i < n; i++ {
 		switch k := r.Intn(20); {
 		case k < 10:
@@ -529,7 +562,9 @@ func c01GenOps(r *vRand, n int) []string {
 			}
 			for j := 0; j < 8; j++ {
 				if j == sdAt {
-					ops = append(ops, "s")
+					if op, ok := shutdownOp(); ok {
+						ops = append(ops, op)
+					}
 				}
 				if r.Intn(6) == 0 {
 					ops = append(ops, vPick(r, []string{"g-", "g-", "gt"}))
@@ -538,10 +573,14 @@ func c01GenOps(r *vRand, n int) []string {
 				}
 			}
 		default:
-			ops = append(ops, "s")
+			if op, ok := shutdownOp(); ok {
+				ops = append(ops, op)
+			}
 			// often a second (third) Shutdown caller right away: it must wait in stopOnce.Do until the first is done
 			for r.Intn(2) == 0 {
-				ops = append(ops, "s")
+				if op, ok := shutdownOp(); ok {
+					ops = append(ops, op)
+				}
 			}
 		}
 	}
